@@ -26,7 +26,7 @@ func init() {
 func runC12Shared(c *sim.Ctx, t *testing.T) {
 	// run-specific variable names: anything the matcher might remember per name
 	// (process-wide) is cold when the walkers start
-	cfg := genCfg{native: true, failOps: true, nullRet: true, permanents: true, guards: true, guardEmits: true, loops: true, maxNodes: 4, ext: true, noop: true,
+	cfg := genCfg{native: true, failOps: true, nullRet: true, permanents: true, guards: true, guardEmits: true, loops: true, maxNodes: 4, ext: true, noop: true, errName: true,
 		ineqSuffix: fmt.Sprintf("%d", c.Seed%1000003)}
 	c.PermuteOff = true
 	sim.Install(c)
